@@ -12,6 +12,7 @@ import (
 	"verifharness/c05disp"
 	"verifharness/c05frame"
 	"verifharness/c05ts"
+	"verifharness/c05val"
 	"verifharness/vh"
 )
 
@@ -24,6 +25,7 @@ type part struct {
 var parts = []part{
 	{"ts", c05ts.Exec, c05ts.Gen},
 	{"frame", c05frame.Exec, c05frame.Gen},
+	{"val", c05val.Exec, c05val.Gen},
 	{"disp", c05disp.Exec, c05disp.Gen},
 }
 
@@ -77,6 +79,10 @@ func main() {
 			out.Case(op, impl, class, nontrivial)
 		})
 	}
-	out.Close(map[string]interface{}{"crash_answers_by_site": known, "skipped_huge_pk_count": c05frame.Skipped,
-		"subprocess_notes": c05disp.Notes})
+	extra := map[string]interface{}{"crash_answers_by_site": known, "skipped_huge_pk_count": c05frame.Skipped,
+		"subprocess_notes": c05disp.Notes}
+	for k, v := range c05val.Stats() {
+		extra["val_"+k] = v
+	}
+	out.Close(extra)
 }
